@@ -311,6 +311,10 @@ class Gen:
                             inner.append(a)
                             if self.chance(0.2):
                                 inner.append({"op": "execute"})
+                        # the strategy's own code fails inside the `with market.transaction()` block, after some
+                        # requests were accepted: they are still sent when the block is left
+                        if self.chance(max(p["p_raise"], 0.04)):
+                            inner.insert(self.rnd.randint(1, len(inner)), {"op": "raise"})
                         acts = [{"op": "txn", "actions": inner}]
                     if self.chance(p["p_raise"]):
                         acts.append({"op": "raise"})
